@@ -41,7 +41,7 @@ use vm_api::util::get_state;
 use vm_api::VM;
 
 const INVOKE: u64 = fil_actor_evm::Method::InvokeContract as u64;
-const MAX_BYTES: usize = 1 << 16; // observed byte strings longer than this: the case is dropped
+const MAX_BYTES: usize = 4096; // observed byte strings longer than this: the case is dropped
 
 // ------------------------------------------------------------------------------------------------
 // recording hooks
@@ -82,32 +82,13 @@ static LOGGER: EvmLogger = EvmLogger;
 // ------------------------------------------------------------------------------------------------
 // Gallina printing
 // ------------------------------------------------------------------------------------------------
-/// byte list with run-length notation `rep b n` for long runs
+/// a byte string as `bz len 0x<hex>` (two tokens; decoded by the model)
 fn coq_bytes(bs: &[u8]) -> String {
-    let mut parts: Vec<String> = vec![];
-    let mut cur: Vec<String> = vec![];
-    let mut i = 0;
-    while i < bs.len() {
-        let mut j = i;
-        while j < bs.len() && bs[j] == bs[i] {
-            j += 1;
-        }
-        if j - i >= 12 {
-            if !cur.is_empty() {
-                parts.push(format!("[{}]", cur.join("; ")));
-                cur = vec![];
-            }
-            parts.push(format!("rep {} {}", bs[i], j - i));
-            i = j;
-        } else {
-            cur.push(bs[i].to_string());
-            i += 1;
-        }
+    if bs.is_empty() {
+        "[]".to_string()
+    } else {
+        format!("(bz {} 0x{})", bs.len(), hex::encode(bs))
     }
-    if !cur.is_empty() || parts.is_empty() {
-        parts.push(format!("[{}]", cur.join("; ")));
-    }
-    if parts.len() == 1 { parts.remove(0) } else { format!("({})", parts.join(" ++ ")) }
 }
 fn big(bs: &[u8]) -> BigUint {
     BigUint::from_bytes_be(bs)
@@ -120,9 +101,7 @@ fn tok_big(t: &TokenAmount) -> BigUint {
 }
 fn obs_bytes(o: &mut Vec<String>, bs: &[u8]) {
     o.push(bs.len().to_string());
-    for b in bs {
-        o.push(b.to_string());
-    }
+    o.push(if bs.is_empty() { "0".to_string() } else { format!("0x{}", hex::encode(bs)) });
 }
 
 // ------------------------------------------------------------------------------------------------
@@ -487,7 +466,7 @@ fn parse_node(w: &World, me: &Address, subs: &[InvocationTrace], events: &[Emitt
 }
 
 fn coq_ext(e: &ExtRes) -> String {
-    format!("{{| xr_ok := {}; xr_val := {}; xr_ret := {} |}}", cf::b(e.ok), e.val, coq_bytes(&e.ret))
+    format!("Build_ext_res {} {} {}", cf::b(e.ok), e.val, coq_bytes(&e.ret))
 }
 
 fn obs_msgs(o: &mut Vec<String>, p: &Parsed) {
@@ -545,42 +524,13 @@ struct CallIn<'a> {
 }
 fn coq_call_in(w: &World, c: &CallIn) -> String {
     let acct_id = w.acct.id().unwrap();
-    let randao = big(&vharness::vvm::TEST_VM_RAND_ARRAY);
-    let ctx: Vec<(u8, BigUint)> = vec![
-        (0x30, big(&c.address)),
-        (0x32, big(&eth_from_id(acct_id))),
-        (0x33, big(&c.caller)),
-        (0x34, BigUint::from(c.value)),
-        (0x3a, BigUint::zero()),
-        (0x41, BigUint::zero()),
-        (0x42, BigUint::zero()),
-        (0x43, BigUint::from(EPOCH as u64)),
-        (0x44, randao),
-        (0x45, BigUint::from(10_000_000_000u64)),
-        (0x46, BigUint::zero()),
-        (0x48, BigUint::zero()),
-        (0x5a, BigUint::from(u32::MAX)),
-    ];
-    let empty_hash = big(&keccak(&[]));
-    let native_hash = big(&keccak(&[0xfe]));
-    let mut accts: Vec<String> = vec![];
-    let mut acct = |addr: &[u8; 20], kind: u8, bal: BigUint, size: usize, hash: &BigUint, codeb: &[u8]| {
-        accts.push(format!(
-            "{{| ac_addr := {}; ac_kind := {}; ac_balance := {}; ac_size := {}; ac_hash := {}; ac_code := {} |}}",
-            big(addr), kind, bal, size, hash, coq_bytes(codeb)
-        ));
+    let extra = match c.me {
+        Some(me) => format!(
+            "[Build_acct {} 1 {} {} {} {}]",
+            big(&me.eth), c.balance, me.code.len(), big(&keccak(&me.code)), coq_bytes(&me.code)
+        ),
+        None => "[]".to_string(),
     };
-    if let Some(me) = c.me {
-        acct(&me.eth, 1, c.balance.clone(), me.code.len(), &big(&keccak(&me.code)), &me.code);
-    }
-    acct(&eth_from_id(acct_id), 0, tok_big(&w.v.balance(&w.acct)), 0, &empty_hash, &[]);
-    acct(&eth_from_id(1), 2, BigUint::zero(), 1, &native_hash, &[0xfe]);
-    for h in [&w.echo, &w.reverter] {
-        acct(&h.eth, 1, BigUint::zero(), h.code.len(), &big(&keccak(&h.code)), &h.code);
-    }
-    let tip = big(b"faketipset");
-    let bh = vec![(EPOCH - 1, tip.clone()), (EPOCH - 256, tip.clone())];
-    // de-duplicated keccak table
     let mut seen = std::collections::HashSet::new();
     let mut hs = vec![];
     for (pre, dig) in &c.hashes {
@@ -589,14 +539,21 @@ fn coq_call_in(w: &World, c: &CallIn) -> String {
         }
     }
     format!(
-        "{{| ci_calldata := {}; ci_balance := {}; ci_ctx := {}; ci_keccak := {}; ci_accts := {}; ci_blockhash := {}; ci_ext := {} |}}",
+        "(mkci {} {} {} {} {} {} {} {} {} {} {} {} {} {})",
         coq_bytes(c.calldata),
         c.balance,
-        cf::list(ctx.iter().map(|(k, v)| format!("({}, {})", k, v))),
+        big(&c.address),
+        big(&eth_from_id(acct_id)),
+        big(&c.caller),
+        c.value,
+        tok_big(&w.v.balance(&w.acct)),
+        big(&w.echo.eth),
+        big(&w.reverter.eth),
+        big(&keccak(&w.echo.code)),
+        big(&keccak(&w.reverter.code)),
         cf::list(hs),
-        cf::list(accts),
-        cf::list(bh.iter().map(|(k, v)| format!("({}, {})", k, v))),
-        cf::list(c.ext.iter().map(coq_ext)),
+        extra,
+        cf::list(c.ext.iter().map(|e| format!("({})", coq_ext(e)))),
     )
 }
 
